@@ -299,6 +299,41 @@ def rule_order_preserving_evals(rep: Report, repo: Repo):
                     ok = _derivative_guard(f, index_name)
                 rep.check(ok, R, f"{mod}::{q} `{norm(node)[:70]}` loads at the requested orders",
                           f"order part classified {cls!r} from {segs}", repo.loc(mod, node))
+    # helpers called from an eval closure run at evaluation time too: a series element they read is read by the request.
+    # They have no access to the requested index unless it is passed, so any series load in a parameterless sibling helper is at an
+    # index that does not depend on the request: only a zeroth-order element (or a finite-part view) is inside every cone.
+    seen_h = set()
+    for mod, q, f in closures:
+        if isinstance(f, ast.Lambda):
+            continue
+        encl = getattr(f, "_parent", None)
+        while encl is not None and not isinstance(encl, ast.FunctionDef):
+            encl = getattr(encl, "_parent", None)
+        if encl is None:
+            continue
+        sib = {d.name: d for d in nested_defs(encl) if d is not f and getattr(d, "_parent", None) is encl}
+        for c in own_nodes(f):
+            if isinstance(c, ast.Call) and isinstance(c.func, ast.Name) and c.func.id in sib and id(sib[c.func.id]) not in seen_h:
+                h = sib[c.func.id]
+                if any(isinstance(d2, ast.FunctionDef) and d2 is h for _m2, _q2, d2 in closures):
+                    continue
+                seen_h.add(id(h))
+                passes_index = any(isinstance(x, ast.Name) and x.id == (f.args.vararg.arg if f.args.vararg else None)
+                                   for a_ in [*c.args, *[k.value for k in c.keywords]] for x in ast.walk(a_))
+                for node in ast.walk(h):
+                    if isinstance(node, ast.Subscript) and isinstance(node.ctx, ast.Load) and isinstance(node.value, ast.Name) \
+                            and series_typed(node.value):
+                        if passes_index or h.args.args or h.args.vararg:
+                            raise AnalysisError(R, f"{mod}::{q} calls helper `{h.name}` that reads `{norm(node)[:50]}` with arguments; not followed")
+                        cls = order_part(segments(node.slice, None))
+                        n_loads += 1
+                        inst = f"{mod}::{q} -> {h.name}() `{norm(node)[:70]}` is read at evaluation time at an index that does not depend on the request"
+                        if cls in ("zero", "none"):
+                            rep.ok(R, inst + " (zeroth order: inside every cone)", "", repo.loc(mod, node))
+                        else:
+                            rep.fail(R, f"{mod}::{q} calls `{h.name}()`, which reads `{norm(node)[:70]}` whatever order was requested",
+                                     f"order part classified {cls!r}: an element that is not the zeroth order is evaluated by requests whose own "
+                                     "orders do not dominate it (and the result may depend on it)", repo.loc(mod, node))
     rep.floor(R, "series loads inside eval closures", n_loads, 10)
     rep.count("E2.causal_evals.closures", [q for _m, q, _f in closures])
 
